@@ -106,12 +106,6 @@ Theorem C11_constructor_reports_validated_bounds : forall (A : Type) (H : Num A)
   ctor k n b cb = Accept (raw, scb) ->
   validate_bounds n b = Accept raw /\ forallb (fun r => Nat.eqb (length r) 2) raw = true.
 Proof. exact (@ctor_reports_bounds). Qed.
-(* FULL STATEMENT, false: every class accepts every well-formed bounds form that its own range allows *)
-Theorem C11_generators_reject_mixed_form_refuted : exists n (b : pv Q) t,
-  meaning n b = Some t /\ ordered t = true /\ GDevice_bounds_accepts (highs t) = true /\
-  is_accept (ctor CDev n b PNone) = true /\ ctor CG n b PNone = RaiseValueError /\ ctor CPV n b PNone = RaiseValueError.
-Proof. exact generator_mixed_form_refuted. Qed.
-
 (* ---------------------------------------------------------------- generated parameter guards = documented ranges *)
 Local Open Scope R_scope.
 Theorem C11_params_CDevice_a : forall a : R, CDevice_a_accepts a = true <-> a <= 0.
